@@ -10,7 +10,9 @@ state is returned unchanged (C05_merge_frame); merging is refused for a writable
 stub-containing set (C05_merge_refused).
 
 Correspondence: histories as in C01 (any number of patches, deletions, replacements, attributes,
-copies, moves) on a real IH5Record / IH5MFRecord in a temp dir, then merge_files(target):
+copies, moves) on a real record in a temp dir — every session, the merge and the follow-up patch use
+IH5Record or IH5MFRecord independently (mixed use of the two classes on one record is supported by
+the code) — then merge_files(target):
 merged dump vs. the model's export of the view (raw container, entry by entry), merged user
 block vs. the model's merged block (identifiers renamed by first occurrence), a random
 follow-up patch created on the source and opened as [merged, patch] and as source + [patch],
@@ -371,6 +373,11 @@ def oracle(o: Dict[str, Any], case) -> List[Dict[str, Any]]:
     return F
 
 
+def canon(ops):
+    """canon_history that keeps the class of a session change."""
+    return [["sess", o[1]] if o[0] == "sess" else c for o, c in zip(ops, canon_history(ops))]
+
+
 def oracle_fails(case, cls: Optional[str] = None) -> Optional[Dict[str, Any]]:
     o = observe(case)
     for f in oracle(o, case):
@@ -388,14 +395,23 @@ def w_shrink(hit):
     if oracle_fails(case, cls) is None:
         return None
     # canonical tiny cases first: they give the same signature whatever history found the failure
-    for cand in ([], [["bnd"]], [["set", ["a"], "i:1"], ["bnd"], ["del", ["a"]]]):
-        small = {**case, "ops": cand, "follow": [], "stub": False, "pre": [], "ro": False}
-        f = oracle_fails(small, cls)
-        if f:
-            return {"case": small, "fail": f}
-    for ro in (False, True):
-        for pre in ([["commit"]], [["discard"]], [["write", ["set", ["a"], "i:1"]]], [["merge-existing"]], [["create"], ["discard"]]):
-            small = {**case, "ops": [], "follow": [], "stub": False, "pre": pre, "ro": ro}
+    P, M = "IH5Record", "IH5MFRecord"
+    for c in dict.fromkeys([case_classes(case)[2], case["cls"]]):      # one class throughout
+        uni = {"cls": c, "mcls": c, "fcls": c, "follow": [], "stub": False}
+        for cand in ([], [["bnd"]], [["set", ["a"], "i:1"], ["bnd"], ["del", ["a"]]]):
+            small = {**uni, "ops": cand, "pre": [], "ro": False}
+            f = oracle_fails(small, cls)
+            if f:
+                return {"case": small, "fail": f}
+        for ro in (False, True):
+            for pre in ([["commit"]], [["discard"]], [["write", ["set", ["a"], "i:1"]]], [["merge-existing"]], [["create"], ["discard"]]):
+                small = {**uni, "ops": [], "pre": pre, "ro": ro}
+                f = oracle_fails(small, cls)
+                if f:
+                    return {"case": small, "fail": f}
+    for c0, c1 in ((M, P), (P, M)):                                     # two sessions with different classes
+        for mc in (P, M):
+            small = {"cls": c0, "ops": [["sess", c1]], "mcls": mc, "fcls": mc, "follow": [], "stub": False, "pre": [], "ro": False}
             f = oracle_fails(small, cls)
             if f:
                 return {"case": small, "fail": f}
@@ -539,6 +555,15 @@ def fixed_cases() -> List[Dict[str, Any]]:
             C.append({"cls": cls, "ops": [["set", ["a", "x"], "i:1"], ["cc"], ["del", ["a", "x"]]], "ro": ro, "stub": False,
                       "pre": [["commit"], ["discard"], w, ["merge-existing"]] + ([["create"]] if ro else [["create"], w, ["discard"]]) + [["commit"]],
                       "follow": [["set", ["a", "y"], "i:2"]]})
+    # mixed use of the two record classes on one record, merged and continued by either class
+    P, M = "IH5Record", "IH5MFRecord"
+    for seq in ([M, P], [P, M], [M, P, M], [P, M, P], [M, M, P], [P, P, M]):
+        for mc in (P, M):
+            ops = [["set", ["a", "s0"], "i:0"]]
+            for j, c in enumerate(seq[1:], 1):
+                ops += [["sess", c], ["set", ["a", f"s{j}"], f"i:{j}"], ["del", ["a", f"s{j - 1}"]]]
+            C.append({"cls": seq[0], "ops": ops, "mcls": mc, "fcls": seq[0] if mc == seq[-1] else mc, "stub": False,
+                      "follow": [["set", ["a", "y"], "i:2"], ["del", ["a", f"s{len(seq) - 1}"]]]})
     return C
 
 
@@ -576,11 +601,19 @@ def gen_cases(ctx) -> List[Dict[str, Any]]:
         full = ih5lib.gen_history(rng, len(ops) + nf, p_bnd=0.0, keys=keys, attr_keys=attr_keys, prefix=ops, values=VALUES)
         cls = rng.choice(["IH5Record", "IH5MFRecord"])
         ops = [["cc"] if o[0] == "bnd" and rng.random() < 0.2 else o for o in ops]
+        other = {"IH5Record": "IH5MFRecord", "IH5MFRecord": "IH5Record"}
+        cur = cls
+        for k, o in enumerate(ops):                # some boundaries end the session; the next one may use the other class
+            if o[0] == "bnd" and rng.random() < 0.35:
+                cur = other[cur] if rng.random() < 0.6 else cur
+                ops[k] = ["sess", cur]
+        mcls = cur if rng.random() < 0.6 else other[cur]
+        fcls = mcls if rng.random() < 0.6 else other[mcls]
         ro = rng.random() < 0.25
         wops = [o for o in ih5lib.gen_history(rng, len(ops) + 3, p_bnd=0.0, keys=keys, attr_keys=attr_keys, prefix=_mops(ops),
                                               values=VALUES, allow_copy=False)[len(ops):]]
-        cases.append({"cls": cls, "ops": ops, "follow": full[len(ops):], "stub": cls == "IH5MFRecord" and rng.random() < 0.35,
-                      "ro": ro, "pre": gen_pre(rng, ro, wops)})
+        cases.append({"cls": cls, "mcls": mcls, "fcls": fcls, "ops": ops, "follow": full[len(ops):],
+                      "stub": fcls == "IH5MFRecord" and rng.random() < 0.35, "ro": ro, "pre": gen_pre(rng, ro, wops)})
     return cases
 
 
@@ -673,8 +706,11 @@ def run(ctx: vlib.Ctx):
             unconfirmed += 1
             continue
         small, f = r["case"], r["fail"]
-        sig = {"class": f["cls"], "record_class": small["cls"], "history": canon_history(small["ops"]),
+        sig = {"class": f["cls"], "record_class": small["cls"], "history": canon(small["ops"]),
                "follow": canon_history(small["follow"]), "fields": f.get("fields")}
+        _, s_last, s_m, s_f = case_classes(small)
+        if s_m != small["cls"] or s_f != small["cls"] or s_last != small["cls"]:
+            sig["merge_class"], sig["follow_class"] = s_m, s_f
         if small.get("pre") or small.get("ro"):
             sig["pre"] = [[op[0]] + (canon_history([op[1]]) if op[0] == "write" else []) for op in small.get("pre", [])]
             sig["read_only_handle"] = bool(small.get("ro"))
@@ -702,14 +738,19 @@ def run(ctx: vlib.Ctx):
     cov["rule"] = ("C01 generators (fixed patterns, targeted shapes replace-then-touch / create below deleted ancestors / copy into own "
                    "subtree / attribute carriers on datasets, shadow-tree-biased random histories with malformed operations; per-history "
                    "alphabet of 3-5 keys from printable ASCII without '@' and '/', one time in three a family of names that are prefixes of each "
-                   "other, plus the shape 'empty group beside a sibling whose name extends its own' at depth 1-3; 1-6 containers) on IH5Record and IH5MFRecord, each "
+                   "other, plus the shape 'empty group beside a sibling whose name extends its own' at depth 1-3; 1-6 containers) on IH5Record and IH5MFRecord, each session (the stretch between two closes of the record) written "
+                   "with IH5Record or IH5MFRecord independently, the merge and the follow-up patch done by either class; "
                    "followed by operations that leave the committed source as it is (refused commit / discard / write, a merge onto an "
                    "existing target, create_patch..writes..discard_patch; in a quarter of the cases through a read-only handle; refused "
                    "second commits also inside the history), then merge_files and a random follow-up patch of 0-7 operations continuing the same generator; stub sets built "
                    "with IH5MFRecord.create_stub from the newest manifest (bare stub and stub + patch); non-trivial = distinct case with "
                    ">= 2 source containers, a non-empty view and a succeeding follow-up operation")
     cov["input_distribution"] = {"cases": len(cases), "evaluated": len(mcases), "containers_per_source": conts_hist,
-                                 "record_classes": _hist(c["cls"] for c in cases), "refusal_cases": len(rcases),
+                                 "record_classes": _hist(c["cls"] for c in cases), "merging_classes": _hist(case_classes(c)[2] for c in cases),
+                                 "cases_mixing_classes": sum(1 for c in cases if len(set(case_classes(c)) | {o[1] for o in c["ops"] if o[0] == "sess"}) > 1),
+                                 "newest_without_extension_but_older_with": sum(
+                                     1 for o in obs if o["st"] == "ok" and o["src_abs"][-1].get("ext") is None and any(x.get("ext") for x in o["src_abs"][:-1])),
+                                 "refusal_cases": len(rcases),
                                  "stub_cases": sum(1 for o in obs if "ref_stub" in o),
                                  "follow_ops": sum(len(c["follow"]) for c in cases),
                                  "source_meta_changes_matching_pinned_model": pinned_match}
@@ -720,7 +761,10 @@ def run(ctx: vlib.Ctx):
     ctx.assumptions += ["keys from the IH5 alphabet (printable ASCII without '@' and '/'), '.' excluded",
                         "the IH5 deletion-marker value is not used as data",
                         "the follow-up patch is written through the overlay API (legal newest container, Inv) — raw edits of patch files are C04's subject",
-                        "digest of the merged payload taken from the written file (hash function not modelled)"]
+                        "digest of the merged payload taken from the written file (hash function not modelled)",
+                        "a merge done with the plain class of a record whose newest block names a manifest copies the link but no sidecar file "
+                        "(the plain class ignores manifests by design): such a merged container is required to open with the plain class, and "
+                        "together with a later patch with both classes, but not alone with the manifest-aware class"]
 
     if not xc["ok"]:
         ctx.violation("extracted runner and in-Coq evaluation of the model disagree", {"kind": "crosscheck", **xc}, found_input=False)
